@@ -13,7 +13,7 @@ def cases(tier, seed):
         arr = []
         for i in range(m):
             o = {'v': rng.choice([1, 2, 3, 10])}
-            if rng.random() < 0.9: o['g'] = rng.choice(['x', 'y', 'z', 'w'])
+            if rng.random() < 0.9: o['g'] = rng.choice(['x', 'y', 'z', 'w', 'lit'])
             if rng.random() < 0.8: o['h'] = rng.choice(['p', 'q'])
             if rng.random() < 0.15: o['g'] = rng.choice([1, True, ['x']])
             if rng.random() < 0.5: o['w'] = rng.choice([[1, 2], [3], 5])
